@@ -146,11 +146,11 @@ func runOne(spec *Spec, res *fw.Result, props map[string]bool) *fw.Result {
 	res.Counters["quiescent_points"] += len(tr.Quiescent)
 	res.Counters[fmt.Sprintf("peak_concurrency=%d", tr.Peak)]++
 	res.ExtraSigs = append(res.ExtraSigs, specShape(spec)+"|"+tr.Signature())
-	if tr.Timeout != "" {
+	fs := Monitor(spec, tr)
+	if tr.Timeout != "" && len(fs) == 0 {
 		res.Inconclusive = "watchdog: " + tr.Timeout
 		return nil
 	}
-	fs := Monitor(spec, tr)
 	res.Counters["late_entries_after_cancel(in-flight, N1)"] += tr.LateEntriesAfterCancel
 	if len(fs) > 0 {
 		var msgs []string
